@@ -26,7 +26,7 @@ ASSUMPTIONS = [
     "statistics 28-31 are taken in their implemented reading (step of two, intersected with records), see DESIGN §3",
 ]
 REQUIRED = ["named.checked", "listing.checked", "tools.distribution", "tools.preserved", "tools.transformed.nonempty", "tools.equidistributed",
-            "calls.Perm.count_inversions", "calls.Perm.holeyness", "calls.Perm.rtlmax_ltrmin_decomposition", "calls.Perm.cycle_decomp", "aliasing.mutated_results", "shortcuts.checked", "tool_faults.function_failed_once", "tool_faults.injected", "tools.class_with_empty_level_below_members"]
+            "calls.Perm.count_inversions", "calls.Perm.holeyness", "calls.Perm.rtlmax_ltrmin_decomposition", "calls.Perm.cycle_decomp", "aliasing.mutated_results", "shortcuts.checked", "tool_faults.function_failed_once", "tool_faults.injected", "tools.class_with_empty_level_below_members", "tools.transformed_equidistributed"]
 MIN_NONTRIVIAL = 3000
 CTX = None
 MON = None
@@ -457,6 +457,15 @@ def chk_equidistributed(ctx, b1, b2, n):
         ctx.ev()
         if gotj != wantj:
             report("equi", [b1, b2, n], f"jointly_equally_distributed differs on {sorted(gotj ^ wantj)[:3]}")
+        # one statistic of the first class against ANOTHER statistic of the second (dim=1: 496 ordered pairs)
+        gott = list(PermutationStatistic.jointly_transformed_equally_distributed(c1, c2, n, 1))
+        h1, h2 = [hist(s, l1) for s in stats], [hist(s, l2) for s in stats]
+        wantt = [((stats[i].name,), (stats[j].name,)) for i in range(len(stats)) for j in range(i + 1, len(stats)) if h1[i] == h2[j]]
+        ctx.ev()
+        ctx.count("tools.transformed_equidistributed")
+        if sorted(gott) != sorted(wantt):
+            diff = sorted(set(gott) ^ set(wantt))[:3]
+            report("equi", [b1, b2, n], f"jointly_transformed_equally_distributed(dim=1) reports {len(gott)} pairs, the histograms give {len(wantt)}; e.g. {diff}")
     ctx.nt(("equi", repr(b1), repr(b2), n))
 
 
@@ -486,6 +495,27 @@ def run(ctx, spec):
         pool = [list(p) for k in (2, 3, 3, 4) for p in itertools.permutations(range(k))]
         if part == 0:
             chk_distribution(ctx, None, 5 if ctx.tier == "quick" else 6)
+            # the printed index of statistics is the one get_by_index uses, and names the definition that is computed
+            import contextlib
+            import io
+            import re
+
+            buf = io.StringIO()
+            with contextlib.redirect_stdout(buf):
+                PermutationStatistic.show_predefined_statistics()
+            shown = dict((int(m.group(1)), m.group(2)) for m in re.finditer(r"^\[(\d+)\] (.*)$", buf.getvalue(), re.M))
+            ctx.ev()
+            ctx.count("tools.index_listing")
+            n_stats = len(PermutationStatistic._STATISTICS)
+            if sorted(shown) != list(range(n_stats)):
+                report("named", ["listing"], f"show_predefined_statistics lists indices {sorted(shown)[:5]}.. for {n_stats} statistics")
+            for i, name in shown.items():
+                one = io.StringIO()
+                with contextlib.redirect_stdout(one):
+                    PermutationStatistic.show_predefined_statistics(i)
+                st = PermutationStatistic.get_by_index(i)
+                if st.name != name or one.getvalue().strip() != name or str(st) != name or name not in ST.NAMED:
+                    report("named", ["listing", i], f"index {i} is shown as {name!r}, get_by_index gives {st.name!r}, show({i}) prints {one.getvalue().strip()!r}")
         if part in (1, 2):
             # classes given by mesh patterns need not be closed downwards: an empty level may sit below non-empty ones
             full = lambda p: {"cls": "MeshPatt", "p": list(p), "s": [[x, y] for x in range(len(p) + 1) for y in range(len(p) + 1)]}
